@@ -5,9 +5,11 @@ import (
 	"fmt"
 	"io"
 	"os"
+	"os/exec"
 	"path/filepath"
 	"reflect"
 	"sort"
+	"strconv"
 	"strings"
 	"sync"
 
@@ -39,8 +41,16 @@ func cacheIndex(name string) int {
 
 // CacheProbe is what the real pkg/cache does when it saves over an existing directory.
 type CacheProbe struct {
-	Atomic         bool     // no target file was rewritten in place
-	InPlace        []string // the files that were
+	// Atomic = NoTruncateInPlace && ViaRename && SyncBeforeRename && InodeCheck: what the runner and the model go by
+	Atomic bool
+	// the system calls of the real save, per target path (strace of a child process running only the save):
+	NoTruncateInPlace bool     // no target path is opened for writing / created / truncated / unlinked / renamed away
+	ViaRename         bool     // every target path is (only) the destination of a rename from a non-target path in the same directory, never written through a descriptor afterwards
+	SyncBeforeRename  bool     // the renamed file was fsync'ed / fdatasync'ed after its last write and before the rename
+	Trace             []string // per target: the calls that touched it or the file renamed onto it
+	// cross-check on the result of the same save: every path has a new inode, the old inodes are untouched
+	InodeCheck     bool
+	InPlace        []string // the files for which that is not so
 	Names          []string // files present after the first save (CacheFiles order, then anything else)
 	LoadIgnoresTmp bool     // LoadFromDisk succeeds, with the same contents, beside truncated <name>.tmp files
 }
@@ -95,7 +105,14 @@ func sameContents(a, b anyCache) bool {
 // A save that replaces a file atomically (write elsewhere, rename over the target) gives the target path a NEW
 // inode and leaves the old inode alone: the descriptor and the link still read the complete old bytes. A save
 // that rewrites in place (os.Create + encode) keeps the inode, so descriptor and link see the new bytes (or, at
-// a crash, a truncated file). Nothing about the source text of pkg/cache is used.
+// a crash, a truncated file). That alone does NOT show atomicity (remove + create + encode also yields a new inode
+// and leaves the old one alone, yet a crash leaves an absent or cut-off file), so it is only a cross-check:
+//
+//	(3) the second save runs in a CHILD process (this binary re-executed with VERIF_CACHE_SAVE_CHILD=<dir>, which
+//	    runs nothing but the real SaveToDisk of the real caches) under strace, and the system calls that touch each
+//	    target path - or the file that is renamed onto it - are what decides: see analyseTrace.
+//
+// Nothing about the source text of pkg/cache is used.
 func ProbeCacheSave() (CacheProbe, error) {
 	var p CacheProbe
 	dir, err := os.MkdirTemp(bm.WorkDir(), "cacheprobe-")
@@ -104,13 +121,7 @@ func ProbeCacheSave() (CacheProbe, error) {
 	}
 	defer os.RemoveAll(dir)
 	root, keep := filepath.Join(dir, "cache"), filepath.Join(dir, "keep")
-	save := func(gen int) (anyCache, anyCache, error) {
-		h, d := headerCache(gen), dataCache(gen)
-		if err := h.SaveToDisk(filepath.Join(root, "header")); err != nil {
-			return nil, nil, err
-		}
-		return h, d, d.SaveToDisk(filepath.Join(root, "data"))
-	}
+	save := func(gen int) error { return saveGeneration(root, gen) }
 	list := func() ([]string, error) {
 		var extra []string
 		found := map[string]bool{}
@@ -137,7 +148,7 @@ func ProbeCacheSave() (CacheProbe, error) {
 		return append(out, extra...), err
 	}
 
-	if _, _, err := save(1); err != nil {
+	if err := save(1); err != nil {
 		return p, fmt.Errorf("first save: %w", err)
 	}
 	if p.Names, err = list(); err != nil {
@@ -177,9 +188,18 @@ func ProbeCacheSave() (CacheProbe, error) {
 			return p, fmt.Errorf("hard link: %w", err)
 		}
 	}
-	h2, d2, err := save(2)
+	h2, d2 := headerCache(2), dataCache(2) // what the child saves (deterministic)
+	trace, err := tracedSave(dir)
 	if err != nil {
-		return p, fmt.Errorf("second save: %w", err)
+		return p, fmt.Errorf("second save (traced child): %w", err)
+	}
+	var targets []string
+	for _, n := range CacheFiles {
+		targets = append(targets, filepath.Join(root, filepath.FromSlash(n)))
+	}
+	p.NoTruncateInPlace, p.ViaRename, p.SyncBeforeRename, p.Trace, err = analyseTrace(trace, dir, targets)
+	if err != nil {
+		return p, err
 	}
 	changed := 0
 	for _, h := range hs {
@@ -213,7 +233,8 @@ func ProbeCacheSave() (CacheProbe, error) {
 	if changed < 6 {
 		return p, fmt.Errorf("probe is not meaningful: only %d files changed their bytes in the second save", changed)
 	}
-	p.Atomic = len(p.InPlace) == 0
+	p.InodeCheck = len(p.InPlace) == 0
+	p.Atomic = p.NoTruncateInPlace && p.ViaRename && p.SyncBeforeRename && p.InodeCheck
 
 	// a partly written temporary file beside every cache file must not disturb loading
 	for _, n := range p.Names {
@@ -244,7 +265,375 @@ func cacheProbe() (CacheProbe, error) {
 	return probeRes, probeErr
 }
 
+// saveGeneration: the real SaveToDisk of a real header cache and a real data cache, as Manager.SaveCache calls them.
+func saveGeneration(root string, gen int) error {
+	if err := headerCache(gen).SaveToDisk(filepath.Join(root, "header")); err != nil {
+		return err
+	}
+	return dataCache(gen).SaveToDisk(filepath.Join(root, "data"))
+}
+
+const childEnv = "VERIF_CACHE_SAVE_CHILD"
+
+// traced system calls (`?` = ignore where the architecture has no such call)
+const straceSet = "trace=?open,openat,?creat,?rename,renameat,renameat2,?unlink,unlinkat,?link,linkat,fsync,fdatasync,ftruncate,truncate,write,pwrite64,writev,pwritev,close"
+
+// tracedSave re-executes this binary under strace; the child (see init) saves generation 2 into <dir>/cache, between
+// the creation of the marker files <dir>/begin and <dir>/end. Returns the trace text.
+func tracedSave(dir string) (string, error) {
+	exe, err := os.Executable()
+	if err != nil {
+		return "", err
+	}
+	st, err := exec.LookPath("strace")
+	if err != nil {
+		return "", fmt.Errorf("strace is needed to observe how pkg/cache replaces its files: %w", err)
+	}
+	out := filepath.Join(dir, "trace")
+	cmd := exec.Command(st, "-f", "-qq", "-s", "0", "-e", straceSet, "-o", out, exe)
+	cmd.Env = append(os.Environ(), childEnv+"="+dir)
+	cmd.Dir = dir
+	if b, err := cmd.CombinedOutput(); err != nil {
+		return "", fmt.Errorf("strace %s: %v: %s", exe, err, strings.TrimSpace(string(b)))
+	}
+	b, err := os.ReadFile(out)
+	return string(b), err
+}
+
+type sysc struct {
+	name string
+	args []string
+	ret  int64
+}
+
+// parseStrace: `-f -o` lines "<tid> name(args) = ret …"; calls split into "<unfinished ...>" / "<... name resumed>"
+// are joined and take the position of their completion; signal and exit lines are skipped.
+func parseStrace(text string) []sysc {
+	var out []sysc
+	pending := map[string]string{}
+	for _, line := range strings.Split(text, "\n") {
+		tid, rest, ok := strings.Cut(strings.TrimSpace(line), " ")
+		rest = strings.TrimSpace(rest)
+		if !ok || rest == "" || rest[0] == '+' || rest[0] == '-' {
+			continue
+		}
+		if strings.HasSuffix(rest, "<unfinished ...>") {
+			pending[tid] = strings.TrimSuffix(rest, "<unfinished ...>")
+			continue
+		}
+		if strings.HasPrefix(rest, "<... ") {
+			i := strings.Index(rest, "resumed>")
+			if i < 0 {
+				continue
+			}
+			rest = pending[tid] + rest[i+len("resumed>"):]
+			delete(pending, tid)
+		}
+		open := strings.IndexByte(rest, '(')
+		is := strings.LastIndex(rest, " = ") // "name(args)   = ret [errno (text)]"
+		if open <= 0 || is < open {
+			continue
+		}
+		eq := strings.LastIndex(rest[:is+1], ")")
+		if eq < open {
+			continue
+		}
+		c := sysc{name: rest[:open], ret: -1}
+		if f := strings.Fields(rest[is+3:]); len(f) > 0 {
+			if n, err := strconv.ParseInt(f[0], 0, 64); err == nil {
+				c.ret = n
+			}
+		}
+		// top-level arguments
+		depth, inq, start := 0, false, open+1
+		body := rest[:eq]
+		for i := open + 1; i < len(body); i++ {
+			ch := body[i]
+			switch {
+			case inq && ch == '\\':
+				i++
+			case ch == '"':
+				inq = !inq
+			case inq:
+			case ch == '[' || ch == '{' || ch == '(':
+				depth++
+			case ch == ']' || ch == '}' || ch == ')':
+				depth--
+			case ch == ',' && depth == 0:
+				c.args = append(c.args, strings.TrimSpace(body[start:i]))
+				start = i + 1
+			}
+		}
+		c.args = append(c.args, strings.TrimSpace(body[start:]))
+		out = append(out, c)
+	}
+	return out
+}
+
+// analyseTrace decides the three facts from the system calls the child issued between its two markers. One
+// descriptor table (the child is one process; its threads share it); only successful calls count.
+//
+//	noTrunc:  no target path is opened with O_WRONLY/O_RDWR/O_CREAT/O_TRUNC/O_APPEND, truncated, unlinked, renamed
+//	          away or linked over
+//	viaRen:   every target path is the destination of at least one rename, every such rename comes from a path in
+//	          the same directory that is not itself a target, and nothing is written through a descriptor of that
+//	          file after the rename
+//	synced:   for every such rename: the source was opened for writing by the child, and an fsync/fdatasync on one of
+//	          its descriptors succeeded after the last write to it and before the rename
+func analyseTrace(text, dir string, targets []string) (noTrunc, viaRen, synced bool, summary []string, err error) {
+	calls := parseStrace(text)
+	isTarget := map[string]bool{}
+	for _, t := range targets {
+		isTarget[t] = true
+	}
+	abs := func(dirfd, quoted string) (string, bool) {
+		p, e := strconv.Unquote(quoted)
+		if e != nil {
+			p = strings.Trim(quoted, "\"")
+		}
+		if !filepath.IsAbs(p) {
+			if dirfd != "AT_FDCWD" {
+				return p, false
+			}
+			p = filepath.Join(dir, p) // the child's working directory
+		}
+		return filepath.Clean(p), true
+	}
+	type file struct { // a file created by the child, followed through renames
+		path                string
+		lastWrite, lastSync int
+		opened              bool
+	}
+	fds := map[int64]*file{}       // descriptor -> file
+	byPath := map[string]*file{}   // current path -> file
+	ev := map[string][]string{}    // target -> what happened to it
+	srcOf := map[string][]string{} // target -> rename sources
+	noTrunc, viaRen, synced = true, true, true
+	renamedTo := map[string]int{}
+	note := func(t, what string) {
+		if n := len(ev[t]); n == 0 || ev[t][n-1] != what {
+			ev[t] = append(ev[t], what)
+		}
+	}
+	rel := func(p string) string {
+		if r, e := filepath.Rel(filepath.Join(dir, "cache"), p); e == nil {
+			return filepath.ToSlash(r)
+		}
+		return p
+	}
+	in, done, unresolved := false, false, 0
+	for i, c := range calls {
+		if c.ret < 0 || done {
+			continue
+		}
+		var dirfd, path, flags string
+		switch c.name {
+		case "openat":
+			if len(c.args) >= 3 {
+				dirfd, path, flags = c.args[0], c.args[1], c.args[2]
+			}
+		case "open":
+			if len(c.args) >= 2 {
+				dirfd, path, flags = "AT_FDCWD", c.args[0], c.args[1]
+			}
+		case "creat":
+			if len(c.args) >= 1 {
+				dirfd, path, flags = "AT_FDCWD", c.args[0], "O_WRONLY|O_CREAT|O_TRUNC"
+			}
+		}
+		if path != "" {
+			p, ok := abs(dirfd, path)
+			if p == filepath.Join(dir, "begin") {
+				in = true
+				continue
+			}
+			if p == filepath.Join(dir, "end") {
+				done = true
+				continue
+			}
+			if !in {
+				continue
+			}
+			if !ok {
+				unresolved++
+				continue
+			}
+			writing := false
+			for _, f := range []string{"O_WRONLY", "O_RDWR", "O_CREAT", "O_TRUNC", "O_APPEND"} {
+				writing = writing || strings.Contains(flags, f)
+			}
+			if isTarget[p] && writing {
+				noTrunc = false
+				note(p, "openat(TARGET, "+flags+")")
+			}
+			f := byPath[p]
+			if f == nil {
+				f = &file{path: p, lastWrite: -1, lastSync: -1}
+				byPath[p] = f
+			}
+			if writing {
+				f.opened = true
+			}
+			fds[c.ret] = f
+			continue
+		}
+		if !in {
+			continue
+		}
+		fd := func() *file {
+			if len(c.args) == 0 {
+				return nil
+			}
+			n, e := strconv.ParseInt(c.args[0], 0, 64)
+			if e != nil {
+				return nil
+			}
+			return fds[n]
+		}
+		switch c.name {
+		case "write", "pwrite64", "writev", "pwritev":
+			if f := fd(); f != nil {
+				f.lastWrite = i
+				if isTarget[f.path] {
+					viaRen, noTrunc = false, false
+					note(f.path, c.name+"(descriptor of TARGET)")
+				}
+			}
+		case "fsync", "fdatasync":
+			if f := fd(); f != nil {
+				f.lastSync = i
+			}
+		case "ftruncate":
+			if f := fd(); f != nil && isTarget[f.path] {
+				noTrunc = false
+				note(f.path, "ftruncate(descriptor of TARGET)")
+			}
+		case "truncate":
+			if len(c.args) >= 1 {
+				if p, ok := abs("AT_FDCWD", c.args[0]); ok && isTarget[p] {
+					noTrunc = false
+					note(p, "truncate(TARGET)")
+				} else if !ok {
+					unresolved++
+				}
+			}
+		case "close":
+			if len(c.args) >= 1 {
+				if n, e := strconv.ParseInt(c.args[0], 0, 64); e == nil {
+					delete(fds, n)
+				}
+			}
+		case "unlink", "unlinkat":
+			a := c.args
+			d := "AT_FDCWD"
+			if c.name == "unlinkat" && len(a) >= 2 {
+				d, a = a[0], a[1:]
+			}
+			if len(a) >= 1 {
+				p, ok := abs(d, a[0])
+				if !ok {
+					unresolved++
+				} else if isTarget[p] {
+					noTrunc = false
+					note(p, c.name+"(TARGET)")
+				} else {
+					delete(byPath, p)
+				}
+			}
+		case "rename", "renameat", "renameat2", "link", "linkat":
+			var sd, sp, dd, dp string
+			switch {
+			case (c.name == "rename" || c.name == "link") && len(c.args) >= 2:
+				sd, sp, dd, dp = "AT_FDCWD", c.args[0], "AT_FDCWD", c.args[1]
+			case len(c.args) >= 4:
+				sd, sp, dd, dp = c.args[0], c.args[1], c.args[2], c.args[3]
+			default:
+				continue
+			}
+			src, ok1 := abs(sd, sp)
+			dst, ok2 := abs(dd, dp)
+			if !ok1 || !ok2 {
+				unresolved++
+				continue
+			}
+			if isTarget[src] {
+				noTrunc, viaRen = false, false
+				note(src, c.name+"(TARGET -> "+rel(dst)+")")
+			}
+			if !isTarget[dst] {
+				if f := byPath[src]; f != nil && strings.HasPrefix(c.name, "rename") {
+					delete(byPath, src)
+					f.path = dst
+					byPath[dst] = f
+				}
+				continue
+			}
+			if strings.HasPrefix(c.name, "link") {
+				noTrunc, viaRen = false, false
+				note(dst, c.name+"("+rel(src)+" -> TARGET)")
+				continue
+			}
+			renamedTo[dst]++
+			srcOf[dst] = append(srcOf[dst], rel(src))
+			f := byPath[src]
+			good := !isTarget[src] && filepath.Dir(src) == filepath.Dir(dst)
+			if !good {
+				viaRen = false
+			}
+			what := c.name + "(" + rel(src) + " -> TARGET)"
+			switch {
+			case f == nil || !f.opened:
+				synced = false
+				what = "[source not written by this save] " + what
+			case f.lastWrite < 0:
+				synced = false
+				what = "[no write to the source seen] " + what
+			case f.lastSync > f.lastWrite && f.lastSync < i:
+				what = fmt.Sprintf("open(%s) write fsync ", rel(src)) + what
+			default:
+				synced = false
+				what = fmt.Sprintf("open(%s) write NO-SYNC-AFTER-LAST-WRITE ", rel(src)) + what
+			}
+			note(dst, what)
+			if f != nil {
+				delete(byPath, src)
+				f.path = dst
+				byPath[dst] = f
+			}
+		}
+	}
+	if !in || !done {
+		return false, false, false, nil, fmt.Errorf("traced child: markers not found in the trace (begin=%v end=%v)", in, done)
+	}
+	if unresolved > 0 {
+		return false, false, false, nil, fmt.Errorf("traced child: %d path(s) relative to a directory descriptor could not be resolved", unresolved)
+	}
+	for _, t := range targets {
+		if renamedTo[t] == 0 {
+			viaRen, synced = false, false
+			note(t, "never the destination of a rename")
+		}
+		summary = append(summary, rel(t)+": "+strings.Join(ev[t], "; "))
+	}
+	return
+}
+
 func init() {
+	if dir := os.Getenv(childEnv); dir != "" {
+		// the traced child of ProbeCacheSave: nothing but the real save, between two marker files
+		code := 0
+		if err := os.WriteFile(filepath.Join(dir, "begin"), nil, 0o644); err != nil {
+			code = 3
+		}
+		if err := saveGeneration(filepath.Join(dir, "cache"), 2); err != nil {
+			fmt.Fprintln(os.Stderr, "save:", err)
+			code = 3
+		}
+		if err := os.WriteFile(filepath.Join(dir, "end"), nil, 0o644); err != nil {
+			code = 3
+		}
+		os.Exit(code)
+	}
 	hx.RegisterFacts("C04", func() (string, error) {
 		p, err := ProbeCacheSave()
 		if err != nil {
@@ -258,8 +647,19 @@ func init() {
 			return "[" + strings.Join(o, ", ") + "]"
 		}
 		var b strings.Builder
-		fmt.Fprintf(&b, "/-- measured: the real `SaveToDisk` of the header and data caches was run over a directory that already held the files\nof an earlier save; `true` iff every target path got a new inode and an open descriptor on / a hard link to every\nold file still read the complete old bytes (files rewritten in place: %s) -/\n", q(p.InPlace))
-		fmt.Fprintf(&b, "def cacheSaveAtomic : Bool := %s\n", hx.LeanBool(p.Atomic))
+		b.WriteString("/-! Measured on the compiled pkg/cache: the real `SaveToDisk` of a header and a data cache was run, in a child process\nunder strace, over a directory that already held the eight files of an earlier save. -/\n")
+		fmt.Fprintf(&b, "/-- no target path was opened for writing / created / truncated / unlinked / renamed away / linked over, and nothing\nwas written through a descriptor of a target -/\ndef cacheSaveNoTruncateInPlace : Bool := %s\n", hx.LeanBool(p.NoTruncateInPlace))
+		fmt.Fprintf(&b, "/-- every target path was the destination of a rename, each from a non-target path in the same directory -/\ndef cacheSaveViaRename : Bool := %s\n", hx.LeanBool(p.ViaRename))
+		fmt.Fprintf(&b, "/-- every renamed file was written by this save and fsync'ed / fdatasync'ed after its last write, before the rename -/\ndef cacheSaveSyncBeforeRename : Bool := %s\n", hx.LeanBool(p.SyncBeforeRename))
+		fmt.Fprintf(&b, "/-- cross-check on the outcome of the same save: every target path has a new inode; an open descriptor on and a hard\nlink to every old file still read the complete old bytes (not so for: %s) -/\ndef cacheSaveInodeCheck : Bool := %s\n", q(p.InPlace), hx.LeanBool(p.InodeCheck))
+		b.WriteString("/-- what the runner and the driver go by -/\ndef cacheSaveAtomic : Bool :=\n  cacheSaveNoTruncateInPlace && cacheSaveViaRename && cacheSaveSyncBeforeRename && cacheSaveInodeCheck\n")
+		fmt.Fprintf(&b, "/-- per target: the system calls that touched it or the file renamed onto it -/\ndef cacheSaveTrace : List String := %s\n", "[\n  "+strings.Join(func() []string {
+			var o []string
+			for _, s := range p.Trace {
+				o = append(o, hx.LeanString(s))
+			}
+			return o
+		}(), ",\n  ")+"]")
 		fmt.Fprintf(&b, "/-- the real `LoadFromDisk` succeeds, with the saved contents, when a truncated `<name>.tmp` lies beside every file -/\n")
 		fmt.Fprintf(&b, "def cacheLoadIgnoresTmp : Bool := %s\n", hx.LeanBool(p.LoadIgnoresTmp))
 		fmt.Fprintf(&b, "/-- the files a complete save leaves in the cache directory -/\n")
